@@ -335,6 +335,37 @@ def clause3_state(ctx, P):
            "connections are registered for readiness bits 0x%x, of which 0x%x are treated as an ERROR by the dispatcher: input that "
            "arrives together with such a bit (e.g. data + half-close in one readiness report) is discarded instead of processed"
            % ((reg or 0) & 0xFFFFFFFF, ((reg or 0) & 0xFFFFFFFF) & (errmask or 0) & ~ET) if not okr else "registered bits are IN|OUT|ET only")
+    # input that is reported together with a hang-up or an error is still input: on every path of the dispatcher to the error
+    # callback, the readable bit has been found clear or the read callback has run first.  (EPOLLHUP and EPOLLERR are reported
+    # whether registered or not: a peer of the local socket that sends its last message and closes is seen as IN|HUP when both
+    # happened before the daemon looked, and as IN, later HUP, when it looked in between.)
+    IN = Q.const(P, "eventloop_epoll.c", "EPOLLIN") & 0xFFFFFFFF
+    ekey = ("struct.io_event", P.field_index("struct.io_event", "error_function"))
+    rkey = ("struct.io_event", P.field_index("struct.io_event", "read_function"))
+    cgx = ctx.cur.cg
+    badv = None
+    nerr = 0
+    for v in Q.path_views(ctx, P, he):
+        read_done = False
+        for k, i in v.insts():
+            if i.op != "call" or i.callee:
+                continue
+            fld = cgx.icall_field(he, i)
+            if fld == rkey:
+                read_done = True
+            elif fld == ekey:
+                nerr += 1
+                in_clear = v.has_atom(lambda a, p: a[0] == "cmp" and a[3] == ("const", 0) and a[2][0] == "op" and a[2][1] == "and" and
+                                      a[2][2][1] == ("const", IN) and Q.mentions(a[2][2][0], lambda x: x[0] == "field" and x[3] == "events") and
+                                      Q._poleq(a, p))
+                no_reader = v.has_atom(lambda a, p: a[0] == "cmp" and a[3] == ("null",) and a[2][0] == "load" and a[2][1][0] == "field" and
+                                       a[2][1][3] == "read_function" and Q._poleq(a, p))
+                if not (read_done or in_clear or no_reader):
+                    badv = v
+    ctx.ob("C09.3 R-ORDER", he, "input-is-read-before-a-hangup-is-handled", badv is None and nerr > 0,
+           "handle_events() calls the error callback of a connection on a path that has neither found EPOLLIN clear nor run the read "
+           "callback: a last message that is reported together with the peer's hang-up (EPOLLIN|EPOLLHUP in one entry) is discarded, "
+           "while the same bytes are processed when the two are reported one after the other", witness=badv.witness() if badv else None)
     ctx.floor("C09.3 R-EFFECT", 5)
 
 
